@@ -34,7 +34,7 @@ class Unit:
                  entry=None, loops=None, kind="P", tier="quick", timeout=300,
                  unwind=None, unwindset=(), flags=(), defines=(), leak=False,
                  reach=0, note="", bound="", assumed=(), solver=None, extra_src=(),
-                 nochecks=False, rec=False, objbits=10, shards=1, late_unwind=None, resplit=0, drop=(), unwind_cut=(), no_overflow=False):
+                 nochecks=False, rec=False, objbits=10, shards=1, late_unwind=None, resplit=0, drop=(), unwind_cut=(), no_overflow=False, smt_props=None, only_props=None):
         self.name = name
         # props: {property_id: regex over obligation names that count for it}
         self.props = props if isinstance(props, dict) else {p: ".*" for p in props}
@@ -67,6 +67,8 @@ class Unit:
         self.drop = list(drop)
         self.unwind_cut = list(unwind_cut)
         self.no_overflow = no_overflow
+        self.only_props = only_props  # regex: decide only these obligations (quick-tier subset of a thorough unit)
+        self.smt_props = smt_props   # regex: these obligations go to z3 with the FP theory, the rest to SAT
 
 
 def load_units():
@@ -126,7 +128,7 @@ def _run(cmd, timeout, log, mem_kb=MEM_KB):
     return p.returncode, out.decode(errors="replace"), err.decode(errors="replace"), dt, to
 
 
-RES_RE = re.compile(r"^\[([^\]]+)\] (?:line (\d+) )?(.*): (SUCCESS|FAILURE|UNKNOWN|ERROR)$")
+RES_RE = re.compile(r"^\[([^\]]+)\] (?:file (\S+) )?(?:line (\d+) )?(.*): (SUCCESS|FAILURE|UNKNOWN|ERROR)$")
 LOC_RE = re.compile(r"^(\S.*?) function (\S+)$")
 
 
@@ -148,8 +150,8 @@ def parse_cbmc_text(text):
         if in_res:
             m = RES_RE.match(line)
             if m:
-                results.append({"property": m.group(1), "description": m.group(3), "status": m.group(4),
-                                "sourceLocation": {"file": cur_file, "function": cur_fn, "line": m.group(2) or ""}})
+                results.append({"property": m.group(1), "description": m.group(4), "status": m.group(5),
+                                "sourceLocation": {"file": m.group(2) or cur_file, "function": cur_fn, "line": m.group(3) or ""}})
                 continue
             m = LOC_RE.match(line)
             if m:
@@ -329,11 +331,11 @@ def run_unit(u, scratch, want_trace=True):
                                 (["--enforce-contract", u.enforce] if u.enforce else []) +
                                 ["--replace-call-with-contract " + g for g in u.replace] +
                                 (["--apply-loop-contracts"] if u.loops else []) + ["&& cbmc"] + flags)
-    if u.shards > 1:
+    if u.shards > 1 or u.smt_props or u.only_props:
         rc, out, err, dt, to = run_sharded(u, cbmc, flags, gbi, d, log)
     else:
         rc, out, err, dt, to = run(cbmc, u.timeout, log)
-    while u.shards <= 1 and (not to) and "too many addressed objects" in (out + err) and u.objbits < 14:
+    while u.shards <= 1 and not u.smt_props and not u.only_props and (not to) and "too many addressed objects" in (out + err) and u.objbits < 14:
         # the object-id width is a pure capacity parameter: escalate and retry
         i = cbmc.index("--object-bits")
         u.objbits += 1
@@ -442,11 +444,26 @@ def run_sharded(u, cbmc, flags, gbi, d, log):
     names = re.findall(r"^Property ([^\s:]+):", out, re.M)
     if not names:
         return rc, out, err, dt, to
-    groups = [names[i::u.shards] for i in range(u.shards)]
+    if u.only_props:
+        rxo = re.compile(u.only_props)
+        names = [n for n in names if rxo.search(n)]
+    smt_names = []
+    if u.smt_props:
+        rx = re.compile(u.smt_props)
+        smt_names = [n for n in names if rx.search(n)]
+        names = [n for n in names if not rx.search(n)]
+    nsh = max(1, u.shards)
+    groups = [names[i::nsh] for i in range(nsh)]
     groups = [g for g in groups if g]
+    smt_groups = [[n] for n in smt_names]
+    groups += smt_groups
 
     def one(g):
         c = ["cbmc", gbi] + flags + ["--verbosity", "8"]
+        if g in smt_groups:
+            # word-level back end: identical float terms of code and specification
+            # are shared instead of bit-blasted twice
+            c = [x for x in c if x not in ("--sat-solver", "cadical")] + ["--z3", "--fpa"]
         for n in g:
             c += ["--property", n]
         r = run(c, u.timeout, log)
@@ -476,6 +493,7 @@ def run_sharded(u, cbmc, flags, gbi, d, log):
             r2 = list(ex.map(one, g2))
         rs = [x[0] for x in keep] + r2
         groups = [x[1] for x in keep] + g2
+        smt_groups[:] = [g for g in groups if len(g) == 1 and g[0] in smt_names]
     to = False
     merged, status, seen = [], "success", False
     for r in rs:
@@ -551,7 +569,8 @@ def do_check(prop, tier, units, keep=False, only=None):
         with ThreadPoolExecutor(max_workers=NCPU) as ex:
             res = list(ex.map(lambda u: run_unit(u, scratch), sel))
         known = load_findings()
-        os.makedirs(os.path.join(VERIF, "replay"), exist_ok=True)
+        rpdir = os.path.join(VERIF, "replay") if "VERIF_EVIDENCE_DIR" not in os.environ else os.path.join(os.environ["VERIF_EVIDENCE_DIR"], "replay")
+        os.makedirs(rpdir, exist_ok=True)
         violations, undecided, kf_lines = [], [], []
         nob = ndis = nbounded = nbounded_dis = 0
         unit_rows = []
@@ -590,7 +609,7 @@ def do_check(prop, tier, units, keep=False, only=None):
                 other = len(r["failed"]) - len(failed_here)
                 nob -= other
             if unknown:
-                rp = os.path.join(VERIF, "replay", "%s.%s.txt" % (prop, u.name))
+                rp = os.path.join(rpdir, "%s.%s.txt" % (prop, u.name))
                 found = write_replay(rp, prop, u, r, unknown)
                 violations.append((u, rp, unknown, found))
         wall = time.time() - t0
@@ -655,7 +674,8 @@ TRUSTED = [
 
 
 def write_evidence(prop, tier, sel, rows, nob, ndis, nb, nbd, wall, nviol, undecided, kf_lines):
-    os.makedirs(os.path.join(VERIF, "evidence"), exist_ok=True)
+    evdir = os.environ.get("VERIF_EVIDENCE_DIR", os.path.join(VERIF, "evidence"))
+    os.makedirs(evdir, exist_ok=True)
     assumptions = []
     try:
         import units.notes as notes
@@ -701,7 +721,7 @@ def write_evidence(prop, tier, sel, rows, nob, ndis, nb, nbd, wall, nviol, undec
         "wall_s": round(wall, 2),
         "violations": nviol,
     }
-    with open(os.path.join(VERIF, "evidence", "%s.json" % prop), "w") as f:
+    with open(os.path.join(evdir, "%s.json" % prop), "w") as f:
         json.dump(ev, f, indent=1)
 
 
